@@ -943,6 +943,61 @@ def _param_width_one(ctx, r, which):
             cov.hit("rejected-atomically")
 
 
+def extreme_scales(ctx):
+    """columns whose magnitudes differ by many orders (a nanosecond timestamp next to a temperature): every column is
+    still mapped to [0,1] by its OWN bounds, validation accepts the result, a later row uses the first call's bounds
+    and the round trip holds to the relative precision of each column"""
+    from artlib.common.utils import normalize, de_normalize
+    cov = ctx.cov
+    for i in range(ctx.scale(24, 300)):
+        r = gen.rng_for(ctx.seed, "C18/scales", i)
+        n = r.randint(3, 9)
+        big = 10.0 ** r.choice([12, 15, 18])
+        cols = [np.array([big + 1e6 * r.randint(0, 1000) * 1.0 for _ in range(n)]),
+                np.array([15.0 + r.randint(0, 60) / 4 for _ in range(n)])]
+        if r.random() < 0.5:
+            cols.append(np.array([-1e-3 * r.randint(1, 999) for _ in range(n)]))
+        for c_ in cols:          # make every column non-constant
+            if c_.max() == c_.min():
+                c_[0] += abs(c_[0]) * 1e-3 + 1.0
+        order = list(range(len(cols)))
+        r.shuffle(order)
+        X = np.column_stack([cols[j] for j in order])
+        rep = {"X": X.tolist()}
+        mn, mx = X.min(axis=0), X.max(axis=0)
+        want = (X - mn) / (mx - mn)
+        tolc = 1e-9 * np.maximum(np.abs(mx), np.abs(mn))
+        try:
+            N, d_max, d_min = normalize(X.copy())
+            back = de_normalize(N, d_max, d_min)
+            if not np.allclose(N, want, rtol=1e-9, atol=1e-12):
+                ctx.issue("violation", "utils.normalize:columns-of-different-magnitude", f"normalize(X) is not (x - min)/(max - min) per column: max {float(np.max(N))}", rep)
+            elif not np.all(np.abs(back - X) <= tolc):
+                ctx.issue("violation", "utils.de_normalize:columns-of-different-magnitude", "de_normalize(normalize(X)) != X beyond each column's relative precision", rep)
+        except Exception as e:
+            ctx.issue("violation", f"utils.normalize:columns-of-different-magnitude:{exc_enum(e)}", repr(e), rep)
+        for cls in ("FuzzyART", "HypersphereART"):
+            est = make(base_spec(r, cls, X.shape[1]))
+            try:
+                with quiet():
+                    P = est.prepare_data(X.copy())
+                    est.validate_data(P)
+                    P1 = est.prepare_data(X[:1].copy())
+                    R = est.restore_data(P)
+                head = np.asarray(P, dtype=float)[:, : X.shape[1]]
+                if not np.allclose(head, want, rtol=1e-9, atol=1e-12):
+                    ctx.issue("violation", f"{cls}.prepare_data:columns-of-different-magnitude", "prepared values are not (x - min)/(max - min) per column", rep)
+                elif not np.array_equal(np.asarray(P1, dtype=float), np.asarray(P, dtype=float)[:1]):
+                    ctx.issue("violation", f"{cls}.prepare_data:columns-of-different-magnitude:later-row", "a later single row is not mapped with the first call's bounds", rep)
+                elif not np.all(np.abs(np.asarray(R, dtype=float) - X) <= tolc):
+                    ctx.issue("violation", f"{cls}.restore_data:columns-of-different-magnitude", "restore_data(prepare_data(X)) != X beyond each column's relative precision", rep)
+                cov.hit("extreme-scales-ok")
+            except Exception as e:
+                ctx.issue("violation", f"{cls}.prepare_data:columns-of-different-magnitude:{exc_enum(e)}",
+                          f"prepare / validate / restore raised {e!r}"[:300], rep)
+        cov.case(("scales", rep["X"]), True)
+
+
 def run(ctx):
     ctx.trusted += ["numpy/IEEE division by zero is modelled by `normWithChk` (non-finite = `nf`), not by the field division",
                     "float rounding of (x-min)/(max-min) is outside the theorems: compared exactly on dyadic data "
@@ -952,4 +1007,5 @@ def run(ctx):
                         "shape is what oracle (c) checks on the implementation"]
     tie(ctx)
     roundtrip(ctx)
+    extreme_scales(ctx)
     rejection(ctx)
